@@ -425,7 +425,11 @@ impl Column {
                 let start = xs.get_start();
                 let len = xs.get_len() as usize;
                 let step = xs.get_step();
-                let decoded = (0..len).map(|i| start + i as i64 * step).collect();
+                // `i * step` can overflow i64 although `start + i * step` fits (e.g. start = i64::MIN,
+                // step = i64::MAX, i = 2); modulo 2^64 the result is exact.
+                let decoded = (0..len)
+                    .map(|i| start.wrapping_add((i as i64).wrapping_mul(step)))
+                    .collect();
                 Column::Int(decoded)
             }
         };
